@@ -248,8 +248,11 @@ package hclsyntax
 // tmplParses counts the calls of the native template parser (used by the JSON syntax, unit U4b:
 // in full-expression mode every JSON string must go through it).
 // verif:ghostvar tmplParses int
+// (assumed write frame: the template parser writes only the counter and memory it allocates - its
+// input bytes are proved unchanged by the srcBytes clause of every parser method)
 // verif:func ParseTemplate
 //@ nosafety
+//@ assumesassigns tmplParses
 //@ ghost tmplParses = old(tmplParses) + 1
 //@ ensures counted: tmplParses == old(tmplParses) + 1
 // verif:func ParseTraversalAbs
